@@ -41,8 +41,11 @@ type SessionWindow struct {
 	timeout time.Duration
 	// mu is used to protect concurrent access to window data
 	mu sync.RWMutex
-	// sessionMap stores session data for different keys
-	sessionMap map[string]*session
+	// sessionMap stores the open sessions of each key, ordered by start time.
+	// A key can have several open sessions at once: a gap larger than the timeout
+	// starts a new session while the previous one waits for the watermark to pass
+	// its end (out-of-order events may still extend or bridge them until then).
+	sessionMap map[string][]*session
 	// outputChan is a channel for sending data when window triggers
 	outputChan chan []types.Row
 	// callback is an optional callback function called when window triggers
@@ -62,6 +65,8 @@ type SessionWindow struct {
 	ticker   *time.Ticker
 	// watermark for event time processing (only used for EventTime)
 	watermark *Watermark
+	// arrivals numbers the rows in arrival order (see session.seqs)
+	arrivals uint64
 	// triggeredSessions stores sessions that have been triggered but are still open for late data (for EventTime with allowedLateness)
 	triggeredSessions map[string]*sessionInfo
 	// Performance statistics
@@ -78,6 +83,7 @@ type sessionInfo struct {
 // session stores data and state for a session
 type session struct {
 	data       []types.Row
+	seqs       []uint64 // arrival number of each row in data (merge keeps arrival order)
 	lastActive time.Time
 	slot       *types.TimeSlot
 }
@@ -134,7 +140,7 @@ func NewSessionWindow(config types.WindowConfig) (*SessionWindow, error) {
 	return &SessionWindow{
 		config:            config,
 		timeout:           timeout,
-		sessionMap:        make(map[string]*session),
+		sessionMap:        make(map[string][]*session),
 		outputChan:        make(chan []types.Row, bufferSize),
 		ctx:               ctx,
 		cancelFunc:        cancel,
@@ -209,37 +215,107 @@ func (sw *SessionWindow) Add(data any) {
 	// Extract session key (supports multiple group by keys)
 	key := extractSessionCompositeKey(data, sw.config.GroupByKeys)
 
-	// Get or create session
-	s, exists := sw.sessionMap[key]
-	if !exists {
-		// Create new session
-		// Use the actual timestamp of the first data point as session start
-		// No alignment needed - session starts from when first data arrives
-		start := timestamp
-		end := start.Add(sw.timeout)
-		slot := types.NewTimeSlot(&start, &end)
-
-		s = &session{
-			data:       []types.Row{},
-			lastActive: timestamp,
-			slot:       slot,
-		}
-		sw.sessionMap[key] = s
-	} else {
-		// Update session end time
-		if timestamp.After(s.lastActive) {
-			s.lastActive = timestamp
-			// Extend session end time
-			newEnd := timestamp.Add(sw.timeout)
-			if newEnd.After(*s.slot.End) {
-				s.slot.End = &newEnd
-			}
-		}
-	}
+	// Find the session this event belongs to (creating or merging as needed)
+	s := sw.placeInSession(key, timestamp)
 
 	// Add data to session
 	row.Slot = s.slot
+	sw.arrivals++
 	s.data = append(s.data, row)
+	s.seqs = append(s.seqs, sw.arrivals)
+}
+
+// placeInSession returns the open session of key that an event at timestamp
+// belongs to. An event belongs to a session when it lies within the timeout of
+// the session's events, i.e. in [start-timeout, lastEvent+timeout]; otherwise it
+// starts a session of its own — in particular an event more than the timeout
+// after the last one no longer extends the previous session. Extending a session
+// can close the gap to a neighbouring session of the same key; those are merged.
+// Caller holds sw.mu.
+func (sw *SessionWindow) placeInSession(key string, timestamp time.Time) *session {
+	list := sw.sessionMap[key]
+	var s *session
+	for _, c := range list {
+		if !timestamp.Before(c.slot.Start.Add(-sw.timeout)) && !timestamp.After(*c.slot.End) {
+			s = c
+			break
+		}
+	}
+	if s == nil {
+		start := timestamp
+		end := start.Add(sw.timeout)
+		s = &session{
+			data:       []types.Row{},
+			lastActive: timestamp,
+			slot:       types.NewTimeSlot(&start, &end),
+		}
+		// keep the key's sessions ordered by start time
+		i := len(list)
+		for i > 0 && list[i-1].slot.Start.After(timestamp) {
+			i--
+		}
+		list = append(list, nil)
+		copy(list[i+1:], list[i:])
+		list[i] = s
+		sw.sessionMap[key] = list
+		return s
+	}
+
+	if timestamp.Before(*s.slot.Start) {
+		start := timestamp
+		s.slot.Start = &start
+	}
+	if timestamp.After(s.lastActive) {
+		s.lastActive = timestamp
+		// Extend session end time
+		newEnd := timestamp.Add(sw.timeout)
+		if newEnd.After(*s.slot.End) {
+			s.slot.End = &newEnd
+		}
+	}
+
+	// Merge neighbours that are now within the timeout of this session.
+	kept := list[:0]
+	for _, c := range list {
+		if c != s && !c.slot.Start.After(*s.slot.End) && !s.slot.Start.After(*c.slot.End) {
+			s.absorb(c)
+			continue
+		}
+		kept = append(kept, c)
+	}
+	for i := len(kept); i < len(list); i++ {
+		list[i] = nil
+	}
+	sw.sessionMap[key] = kept
+	return s
+}
+
+// absorb merges session o into s, keeping rows in arrival order.
+func (s *session) absorb(o *session) {
+	if o.slot.Start.Before(*s.slot.Start) {
+		s.slot.Start = o.slot.Start
+	}
+	if o.slot.End.After(*s.slot.End) {
+		s.slot.End = o.slot.End
+	}
+	if o.lastActive.After(s.lastActive) {
+		s.lastActive = o.lastActive
+	}
+	data := make([]types.Row, 0, len(s.data)+len(o.data))
+	seqs := make([]uint64, 0, len(s.data)+len(o.data))
+	i, j := 0, 0
+	for i < len(s.data) || j < len(o.data) {
+		if j >= len(o.data) || (i < len(s.data) && s.seqs[i] < o.seqs[j]) {
+			data, seqs = append(data, s.data[i]), append(seqs, s.seqs[i])
+			i++
+		} else {
+			r := o.data[j]
+			r.Slot = s.slot
+			data, seqs = append(data, r), append(seqs, o.seqs[j])
+			j++
+		}
+	}
+	s.data, s.seqs = data, seqs
 }
 
 // Start starts the session window's periodic check mechanism
@@ -392,37 +468,43 @@ func (sw *SessionWindow) checkAndTriggerSessions(watermarkTime time.Time) {
 }
 
 func (sw *SessionWindow) collectExpiredSessions(currentTime time.Time) [][]types.Row {
-	expiredKeys := []string{}
-	for key, s := range sw.sessionMap {
-		// For event time, use slot.End to determine if session expired
-		// Session expires when watermark >= session end time
-		// For processing time, use lastActive + timeout
-		if s.slot.End != nil && !currentTime.Before(*s.slot.End) {
-			expiredKeys = append(expiredKeys, key)
-		} else if currentTime.Sub(s.lastActive) > sw.timeout {
-			expiredKeys = append(expiredKeys, key)
-		}
-	}
-
 	resultsToSend := make([][]types.Row, 0)
 	allowedLateness := sw.config.AllowedLateness
 
-	for _, key := range expiredKeys {
-		s := sw.sessionMap[key]
-		if len(s.data) > 0 {
-			result := make([]types.Row, len(s.data))
-			copy(result, s.data)
-			resultsToSend = append(resultsToSend, result)
+	for key, list := range sw.sessionMap {
+		kept := list[:0]
+		for _, s := range list {
+			// For event time, use slot.End to determine if session expired
+			// Session expires when watermark >= session end time
+			// For processing time, use lastActive + timeout
+			expired := (s.slot.End != nil && !currentTime.Before(*s.slot.End)) ||
+				currentTime.Sub(s.lastActive) > sw.timeout
+			if !expired {
+				kept = append(kept, s)
+				continue
+			}
+			if len(s.data) > 0 {
+				result := make([]types.Row, len(s.data))
+				copy(result, s.data)
+				resultsToSend = append(resultsToSend, result)
 
-			if allowedLateness > 0 {
-				closeTime := s.slot.End.Add(allowedLateness)
-				sw.triggeredSessions[key] = &sessionInfo{
-					session:   s,
-					closeTime: closeTime,
+				if allowedLateness > 0 {
+					closeTime := s.slot.End.Add(allowedLateness)
+					sw.triggeredSessions[key] = &sessionInfo{
+						session:   s,
+						closeTime: closeTime,
+					}
 				}
 			}
 		}
-		delete(sw.sessionMap, key)
+		for i := len(kept); i < len(list); i++ {
+			list[i] = nil
+		}
+		if len(kept) == 0 {
+			delete(sw.sessionMap, key)
+		} else {
+			sw.sessionMap[key] = kept
+		}
 	}
 
 	return resultsToSend
@@ -508,16 +590,18 @@ func (sw *SessionWindow) Trigger() {
 
 	// Collect all results first
 	resultsToSend := make([][]types.Row, 0)
-	for _, s := range sw.sessionMap {
-		if len(s.data) > 0 {
-			// Trigger session window
-			result := make([]types.Row, len(s.data))
-			copy(result, s.data)
-			resultsToSend = append(resultsToSend, result)
+	for _, list := range sw.sessionMap {
+		for _, s := range list {
+			if len(s.data) > 0 {
+				// Trigger session window
+				result := make([]types.Row, len(s.data))
+				copy(result, s.data)
+				resultsToSend = append(resultsToSend, result)
+			}
 		}
 	}
 	// Clear all sessions
-	sw.sessionMap = make(map[string]*session)
+	sw.sessionMap = make(map[string][]*session)
 
 	// Capture callback under the lock; release before sending to avoid blocking.
 	callback := sw.callback
@@ -567,7 +651,7 @@ func (sw *SessionWindow) Reset() {
 	}
 
 	// Clear session data
-	sw.sessionMap = make(map[string]*session)
+	sw.sessionMap = make(map[string][]*session)
 	sw.triggeredSessions = make(map[string]*sessionInfo)
 	sw.initialized = false
 	sw.initChan = make(chan struct{})
